@@ -1,6 +1,393 @@
 package verifharness
 
-import "fmt"
+import (
+	"encoding/json"
+	"fmt"
+	"math/rand"
+	"strings"
 
-// C14 recorder (being written).
-func markupHistory(m map[string]string) error { return fmt.Errorf("markup history: not implemented yet") }
+	ysgo "github.com/remieven/ysgo"
+	"github.com/remieven/ysgo/internal/tree"
+	"github.com/remieven/ysgo/markup"
+)
+
+// Property C14: the result of parsing a line depends only on that line.
+// Histories on one reused LineParser vs a fresh parser per call, and dialogue runs that
+// reach the same lines after different prefixes (validated by MarkupHistoryTrace.tla).
+
+type mkHistEvent struct {
+	Ev      string `json:"ev"`
+	H       int    `json:"h"`    // history / dialogue run
+	P       string `json:"p"`    // fresh | reused | runner
+	Line    int    `json:"line"` // id of the line (1-based, dense)
+	Outcome string `json:"outcome"`
+	Got     mkRes  `json:"got"`
+}
+
+type mkLinePool struct {
+	ids   map[string]int
+	lines []string
+}
+
+func (p *mkLinePool) id(line string) int {
+	if id, ok := p.ids[line]; ok {
+		return id
+	}
+	p.lines = append(p.lines, line)
+	p.ids[line] = len(p.lines)
+	return len(p.lines)
+}
+
+// mkBreak turns a valid line into one that must fail to parse (or at least is malformed).
+func mkBreak(rnd *rand.Rand, line string) string {
+	switch rnd.Intn(7) {
+	case 0:
+		return line + "[x"
+	case 1:
+		return line + "[/zz9]"
+	case 2:
+		return "[nomarkup]" + line
+	case 3:
+		return line + "[select value=q /]"
+	case 4:
+		return line + "[a p=]"
+	case 5:
+		return "[/]" + line + "[a trimwhitespace=3/]"
+	}
+	return line + "[plural value=x one=a other=b/]"
+}
+
+// mkHistoryLines draws the lines of one batch: valid lines of the C13 region (rendered),
+// failing variants, and (direct histories only) arbitrary token assemblies.
+func mkHistoryLines(g *mkGen, rnd *rand.Rand, n int, runnerSafe bool) []string {
+	res := []string{}
+	for len(res) < n {
+		items := g.line(10, runnerSafe)
+		line := mkLayout{rnd: rnd}.line(items)
+		switch r := rnd.Intn(10); {
+		case r < 6:
+		case r < 9:
+			line = mkBreak(rnd, line)
+		default:
+			if !runnerSafe {
+				line = mkFuzzAssembly(rnd, 48)
+			}
+		}
+		if strings.TrimSpace(line) == "" {
+			continue
+		}
+		res = append(res, line)
+	}
+	return res
+}
+
+// mkScenario is a dialogue in which the lines `pre` and `tail` are reached after
+// different prefixes: two passes through a loop, each with a different option body.
+type mkScenario struct {
+	pre, tail []string
+	bodies    [][]string
+}
+
+func (s mkScenario) script() string {
+	var b strings.Builder
+	b.WriteString("title: Start\n---\n")
+	for _, l := range s.pre {
+		b.WriteString(l + "\n")
+	}
+	for i, body := range s.bodies {
+		fmt.Fprintf(&b, "-> choice%d\n", i)
+		for _, l := range body {
+			b.WriteString("    " + l + "\n")
+		}
+	}
+	for _, l := range s.tail {
+		b.WriteString(l + "\n")
+	}
+	b.WriteString("<<jump Start>>\n===\n")
+	return b.String()
+}
+
+func mkLineText(st *tree.Statement) (string, bool) {
+	if st == nil || st.LineStatement == nil || st.LineStatement.Text == nil || len(st.LineStatement.Tags) != 0 ||
+		st.LineStatement.Condition != nil {
+		return "", false
+	}
+	var b strings.Builder
+	for _, e := range st.LineStatement.Text.Elements {
+		if e.Expression != nil {
+			return "", false
+		}
+		b.WriteString(e.Text)
+	}
+	return b.String(), true
+}
+
+// frontEndKeeps checks that the Yarn front end hands every line of the scenario to the
+// markup parser unchanged (otherwise the scenario is not judged).
+func (s mkScenario) frontEndKeeps(script string) (ok bool) {
+	guarded(func() {
+		d, err := tree.FromReaders(strings.NewReader(script))
+		if err != nil || d == nil || len(d.Nodes) != 1 {
+			return
+		}
+		sts := d.Nodes[0].Statements
+		if len(sts) != len(s.pre)+1+len(s.tail)+1 {
+			return
+		}
+		same := func(got []*tree.Statement, want []string) bool {
+			if len(got) != len(want) {
+				return false
+			}
+			for i := range got {
+				if t, ok := mkLineText(got[i]); !ok || t != want[i] {
+					return false
+				}
+			}
+			return true
+		}
+		opts := sts[len(s.pre)].ShortcutOptionStatement
+		if !same(sts[:len(s.pre)], s.pre) || opts == nil || len(opts.Options) != len(s.bodies) ||
+			!same(sts[len(s.pre)+1:len(s.pre)+1+len(s.tail)], s.tail) || sts[len(sts)-1].JumpStatement == nil {
+			return
+		}
+		for i, o := range opts.Options {
+			if !same(o.Statements, s.bodies[i]) {
+				return
+			}
+		}
+		ok = true
+	})
+	return ok
+}
+
+// run drives one dialogue run through the choices and returns what the runner yielded
+// for every line reached, in order; ok=false if the dialogue did not follow the script.
+func (s mkScenario) run(script string, choices []int) (lines []string, res []mkRes, ok bool) {
+	var runner *ysgo.DialogueRunner
+	if !guarded(func() {
+		r, err := ysgo.NewDialogueRunner(nil, "verif", strings.NewReader(script))
+		if err == nil {
+			runner = r
+		}
+	}) || runner == nil {
+		return nil, nil, false
+	}
+	choice := 0
+	expectLine := func(l string) bool {
+		var r mkRes
+		if !guarded(func() {
+			el, err := runner.Next(choice)
+			switch {
+			case err != nil:
+				r = mkFail("error")
+			case el == nil || el.Line == nil:
+				r = mkFail("desync")
+			default:
+				r = mkConvertResult(&el.Line.ParseResult)
+			}
+		}) {
+			r = mkFail("panic")
+		}
+		if r.Outcome == "desync" {
+			return false
+		}
+		lines, res = append(lines, l), append(res, r)
+		return true
+	}
+	for _, c := range choices {
+		for _, l := range s.pre {
+			if !expectLine(l) {
+				return nil, nil, false
+			}
+		}
+		gotOptions := false
+		guarded(func() {
+			el, err := runner.Next(choice)
+			gotOptions = err == nil && el != nil && len(el.Options) == len(s.bodies)
+		})
+		if !gotOptions {
+			return nil, nil, false
+		}
+		choice = c
+		for _, l := range s.bodies[c] {
+			if !expectLine(l) {
+				return nil, nil, false
+			}
+		}
+		for _, l := range s.tail {
+			if !expectLine(l) {
+				return nil, nil, false
+			}
+		}
+	}
+	return lines, res, true
+}
+
+func markupHistory(m map[string]string) error {
+	out, err := newNDJSON(m["out"])
+	if err != nil {
+		return err
+	}
+	pool := &mkLinePool{ids: map[string]int{}}
+	var events []mkHistEvent
+	var cases []map[string]any // one entry per history / dialogue run h, replayable with --cases
+	cpsAll := func(ls []string) [][]int {
+		r := make([][]int, len(ls))
+		for i := range ls {
+			r[i] = mkCps(ls[i])
+		}
+		return r
+	}
+	runnerCase := func(sc mkScenario, choices []int) map[string]any {
+		bodies := make([][][]int, len(sc.bodies))
+		for i := range sc.bodies {
+			bodies[i] = cpsAll(sc.bodies[i])
+		}
+		return map[string]any{"kind": "runner", "pre": cpsAll(sc.pre), "tail": cpsAll(sc.tail), "bodies": bodies, "choices": choices}
+	}
+	h := 0
+	nDirect, nRunnerRuns, nRunnerSkipped, nFailing := 0, 0, 0, 0
+	record := func(p, line string, r mkRes) {
+		if r.Outcome == "error" && p == "fresh" {
+			nFailing++
+		}
+		events = append(events, mkHistEvent{Ev: "parse", H: h, P: p, Line: pool.id(line), Outcome: r.Outcome, Got: r})
+	}
+	direct := func(lines []string) {
+		h++
+		nDirect++
+		cases = append(cases, map[string]any{"kind": "direct", "lines": cpsAll(lines)})
+		reused := &markup.LineParser{}
+		for _, l := range lines {
+			record("fresh", l, mkParse(&markup.LineParser{}, l))
+			record("reused", l, mkParse(reused, l))
+		}
+	}
+	if f := m["cases"]; f != "" { // replay of stored histories: [{"kind":"direct","lines":[[cps]..]} | {"kind":"runner",...}]
+		raws, err := readNDJSON(f)
+		if err != nil {
+			return err
+		}
+		for _, raw := range raws {
+			var c struct {
+				Kind    string    `json:"kind"`
+				Lines   [][]int   `json:"lines"`
+				Pre     [][]int   `json:"pre"`
+				Tail    [][]int   `json:"tail"`
+				Bodies  [][][]int `json:"bodies"`
+				Choices []int     `json:"choices"`
+			}
+			if err := json.Unmarshal(raw, &c); err != nil {
+				return err
+			}
+			strs := func(x [][]int) []string {
+				r := make([]string, len(x))
+				for i := range x {
+					r[i] = mkStr(x[i])
+				}
+				return r
+			}
+			if c.Kind == "direct" {
+				direct(strs(c.Lines))
+				continue
+			}
+			sc := mkScenario{pre: strs(c.Pre), tail: strs(c.Tail)}
+			for _, b := range c.Bodies {
+				sc.bodies = append(sc.bodies, strs(b))
+			}
+			script := sc.script()
+			h++
+			cases = append(cases, runnerCase(sc, c.Choices))
+			if lines, res, ok := sc.run(script, c.Choices); ok && sc.frontEndKeeps(script) {
+				nRunnerRuns++
+				for i := range lines {
+					record("fresh", lines[i], mkParse(&markup.LineParser{}, lines[i]))
+					record("runner", lines[i], res[i])
+				}
+			} else {
+				nRunnerSkipped++
+			}
+		}
+	} else {
+		n := argInt(m, "n", 300)
+		rnd := rand.New(rand.NewSource(Seed()))
+		g := &mkGen{rnd: rand.New(rand.NewSource(Seed() + 11))}
+		for i := 0; i < n; i++ {
+			if i%3 != 2 {
+				// a history over a small set of lines, so that lines repeat at different depths
+				set := mkHistoryLines(g, rnd, 2+rnd.Intn(4), false)
+				hist := make([]string, 2+rnd.Intn(7))
+				for k := range hist {
+					hist[k] = set[rnd.Intn(len(set))]
+				}
+				direct(hist)
+				continue
+			}
+			ls := mkHistoryLines(g, rnd, 8, true)
+			sc := mkScenario{pre: ls[0:1+rnd.Intn(2)], tail: ls[2:3+rnd.Intn(2)],
+				bodies: [][]string{ls[4:5+rnd.Intn(2)], ls[6:6+rnd.Intn(3)], {}}}
+			script := sc.script()
+			if !sc.frontEndKeeps(script) {
+				nRunnerSkipped++
+				continue
+			}
+			for _, choices := range [][]int{{0, 1}, {1, 0}, {2, 2, 0}} {
+				h++
+				cases = append(cases, runnerCase(sc, choices))
+				lines, res, ok := sc.run(script, choices)
+				if !ok {
+					nRunnerSkipped++
+					continue
+				}
+				nRunnerRuns++
+				for k := range lines {
+					record("fresh", lines[k], mkParse(&markup.LineParser{}, lines[k]))
+					record("runner", lines[k], res[k])
+				}
+			}
+		}
+	}
+	if err := out.Write(map[string]any{"ev": "header", "nlines": len(pool.lines)}); err != nil {
+		return err
+	}
+	for _, e := range events {
+		if err := out.Write(e); err != nil {
+			return err
+		}
+	}
+	if err := out.Close(); err != nil {
+		return err
+	}
+	if f := m["lines"]; f != "" { // id -> line (code points), for reports and replay files
+		lw, err := newNDJSON(f)
+		if err != nil {
+			return err
+		}
+		for i, l := range pool.lines {
+			if err := lw.Write(map[string]any{"id": i + 1, "cps": mkCps(l)}); err != nil {
+				return err
+			}
+		}
+		if err := lw.Close(); err != nil {
+			return err
+		}
+	}
+	if f := m["cases-out"]; f != "" {
+		cw, err := newNDJSON(f)
+		if err != nil {
+			return err
+		}
+		for _, c := range cases {
+			if err := cw.Write(c); err != nil {
+				return err
+			}
+		}
+		if err := cw.Close(); err != nil {
+			return err
+		}
+	}
+	stats, _ := json.Marshal(map[string]any{"histories": nDirect, "runner_runs": nRunnerRuns, "runner_skipped": nRunnerSkipped,
+		"events": len(events), "distinct_lines": len(pool.lines), "failing_line_parses": nFailing})
+	fmt.Println(string(stats))
+	return nil
+}
